@@ -320,7 +320,7 @@ int main(int argc, char** argv)
 						ChildResult res = run_child([&]() { probe(M, v, p, i, j); return std::string("ok"); }, 10);
 						std::string o	= outcome(res);
 						T.emit({{"e", "Probe"}, {"st", post}, {"p", p}, {"i", i}, {"j", j}, {"ret", res.returned}, {"diag", o == "exit_diag"},
-								{"mem", o == "signal" || o == "memerror" || o == "timeout"}, {"how", o}, {"hist", key}});
+								{"mem", o == "signal" || o == "memerror" || o == "timeout"}, {"how", o}, {"hist", key}, {"msg", (res.err + res.out).substr(0, 300)}});
 					}
 				}
 			}
